@@ -1,16 +1,16 @@
 (* Float-realised extraction of the REAL-NUMBER model of the form-factor formulas (C12), used ONLY by the correspondence check:
-   the hand-written definitions polygon_ff_code / polyhedron_ff_code (Model/FormFactor.v), the ones the theorems of Properties/C12.v
-   are about, are run on binary64 inputs and compared with the implementation to 1e-9.  No theorem depends on this file.
+   the hand-written definitions polygon_ff_code / polyhedron_ff_code (Model/FormFactor.v; Properties/C12.v) and edge_distance
+   (Model/DistanceBranches.v; Properties/C14.v), the ones the theorems are about, are run on binary64 inputs and compared with the implementation to 1e-9.  No theorem depends on this file.
    Directives (all trusted, and all UNSOUND as statements about real numbers - binary64 is not a field; they make the model runnable,
    they prove nothing):
-     R => float; R0, R1, Rplus, Rmult, Ropp, Rinv => 0.0, 1.0, +., *., ~-., 1/x;  sin, cos => OCaml's sin, cos;
+     R => float; R0, R1, Rplus, Rmult, Ropp, Rinv => 0.0, 1.0, +., *., ~-., 1/x;  sin, cos, tan, sqrt => OCaml's;
      Rle_dec, Rlt_dec, Req_EM_T => <=, <, =  (sumbool is bool under ExtrOcamlBasic);
      ClassicalDedekindReals.sig_forall_dec => a dummy (dead code of the standard library's construction of R);
    IZR, Rminus, Rdiv, the vector operations and the model itself are extracted from their Coq definitions. *)
 Require Extraction.
 Require Import Reals List.
 Require Import ExtrOcamlBasic.
-Require Import Cox.Num.Ops Cox.Geo.Vec Cox.Model.FormFactor.
+Require Import Cox.Num.Ops Cox.Geo.Vec Cox.Model.FormFactor Cox.Model.DistanceBranches.
 
 (* the standard library's R is a module built on Dedekind cuts; extraction emits that module too (never called here): its one axiom
    must be given a body or the program stops at start-up *)
@@ -24,6 +24,8 @@ Extract Constant Ropp => "(~-.)".
 Extract Constant Rinv => "(fun x -> 1.0 /. x)".
 Extract Constant sin => "Stdlib.sin".
 Extract Constant cos => "Stdlib.cos".
+Extract Constant tan => "Stdlib.tan".
+Extract Constant sqrt => "Stdlib.sqrt".
 Extract Constant Rle_dec => "(fun (x : float) (y : float) -> x <= y)".
 Extract Constant Rlt_dec => "(fun (x : float) (y : float) -> x < y)".
 Extract Constant Req_EM_T => "(fun (x : float) (y : float) -> x = y)".
@@ -31,4 +33,6 @@ Extract Constant Req_EM_T => "(fun (x : float) (y : float) -> x = y)".
 Definition ffr_polygon (n q : vec3 R) (V : list (vec3 R)) : R * R := polygon_ff_code n q V.
 Definition ffr_polyhedron (q : vec3 R) (F : list (vec3 R * list (vec3 R))) : R * R := polyhedron_ff_code q F.
 
-Extraction "modelr.ml" ffr_polygon ffr_polyhedron.
+Definition ffr_edge_distance (x1 y1 x2 y2 th : R) : R := edge_distance x1 y1 x2 y2 th.
+
+Extraction "modelr.ml" ffr_polygon ffr_polyhedron ffr_edge_distance.
